@@ -266,7 +266,7 @@ def trace_check(ctx, module, bindir, binname, rec_args, name, what, replay_kind,
     keep = os.path.join(ctx.out, name + ".rejected.ndjson")
     import shutil
     shutil.copy(tp, keep)
-    ctx.violation("%s:trace" % module, {"replay_kind": replay_kind, "trace": keep, "record_args": rec_args, "first_unmatched": unmatched[0]},
+    ctx.violation("%s:trace" % module, {"replay_kind": replay_kind, "trace": keep, "record_args": rec_args, "constants": constants or {}, "first_unmatched": unmatched[0]},
                   "%s: the trace recorded from the implementation is not a behaviour of %s.tla; %s" % (what, module, unmatched[0][:500]))
     return False
 
